@@ -67,7 +67,7 @@ class Check(PropertyCheck):
                   "Application by an in-process sweep of routes x methods x credential forms x Sec-Fetch-Site x XSRF states.")
     level_note = ("tornado's XSRF comparison, signed-cookie verification and URL routing are not modelled: they are abstracted "
                   "as xsrfOk / cookieValid / the route row and exercised for real in the sweep; WebAuth.is_valid_password is "
-                  "abstracted as valid/invalid (the sweep uses the generated token and the argon2 branch once per run). Static "
+                  "abstracted as valid/invalid (the sweep uses the generated plaintext token; the argon2 branch is not exercised). Static "
                   "asset rules are outside the authenticated table by design (see module docstring). The cross-site refusal is "
                   "implemented by raising tornado.httpclient.HTTPError, which tornado turns into status 500, not 403 — a refusal, "
                   "recorded as outcome `cross-site`. 'GET/HEAD/OPTIONS handlers do not change state' is checked by the sweep only.")
